@@ -343,7 +343,8 @@ func handleHotRestartAck(s *Session, hdr header, buf []byte) (int, bool, error) 
 	s.listener.mu.Lock()
 	defer s.listener.mu.Unlock()
 
-	if epochID == s.listener.epoch {
+	// only a session which was notified by the listener's hot restart in progress could acknowledge it.
+	if epochID == s.listener.epoch && s.listener.state == hotRestartState && s.state == hotRestartState {
 		s.listener.hotRestartAckCount--
 		s.state = hotRestartDoneState
 	}
